@@ -6,6 +6,7 @@
                adjoint = (conjugate) transpose, single and multi-domain, real and complex."""
 import numpy as np
 
+PRE = ["none", "none", "diag", "scal", "dense", "lineinsum", "lineinsum_t", "mle_static", "mle_static3", "mle2", "outer", "sandwich", "vdotproj", "outerop", "jaxlin"]
 HOLO = {"id": lambda z: z, "exp": np.exp, "sin": np.sin, "tanh": np.tanh, "sq": lambda z: z * z}
 
 
@@ -18,6 +19,13 @@ def gen_creal(rng, n):
                         cut=rng.choice(["real", "imag", "conj", "vdot", "vdot_field", "abs2", "conj_mul"]),
                         post=rng.choice(["id", "exp", "tanh"]), mode=rng.choice(["operator", "linearization"]),
                         c=[dy(), dy()]))
+        # complex LINEAR pieces (einsum contractions, diagonal, dense, scaling with complex constants) below the cut, real energies
+        # above it: the cotangents reaching the complex piece then have REAL dtype
+        out[-1].update(pre=rng.choice(PRE), a=[[[dy(), dy()] for _ in range(m)] for _ in range(m)],
+                       energy=rng.choice(["none", "none", "sum", "gauss"]), data=[dy() for _ in range(m)])
+        if out[-1]["pre"] != "none" and rng.random() < 0.5:
+            # nothing complex between the cut and the linear piece: the cotangent arrives there with real dtype
+            out[-1].update(f="id", cut=rng.choice(["real", "real", "imag", "abs2", "vdot_field"]))
     return out
 
 
@@ -85,41 +93,117 @@ def _creal(case, ift):
         base = ift.ScalingOperator(d, 1.)
         start = lambda: base
     else:
-        lin0 = ift.Linearization.make_var(ift.makeField(d, z0))
+        lin0 = ift.Linearization.make_var(ift.makeField(d, z0), want_metric=(case.get("energy") == "gauss"))
         start = lambda: lin0
-    A = apply_holo(start().scale(c) if case["mode"] == "operator" else start() * c, case["f"])
+    pre = case.get("pre", "none")
+    Mc = np.array([[complex(*e) for e in row] for row in case["a"]]) if pre != "none" else None
+    A0 = start().scale(c) if case["mode"] == "operator" else start() * c
     B = apply_holo(start(), case["g"])
+    dd = ift.DomainTuple.make((d[0], d[0]))
+    lref = lambda z: c * z
+    if pre == "diag":
+        A0 = ift.makeOp(ift.makeField(d, Mc[0])) (A0)
+        lref = lambda z: Mc[0] * (c * z)
+    elif pre == "scal":
+        A0 = ift.ScalingOperator(d, Mc[0, 0])(A0)
+        lref = lambda z: Mc[0, 0] * (c * z)
+    elif pre == "dense":
+        A0 = ift.MatrixProductOperator(d, Mc)(A0)
+        lref = lambda z: Mc @ (c * z)
+    elif pre in ("lineinsum", "lineinsum_t"):
+        ss = "ij,j->i" if pre == "lineinsum" else "ji,j->i"
+        A0 = ift.LinearEinsum(d, ift.MultiField.from_dict({"mat": ift.makeField(dd, Mc)}), ss, key_order=("mat",))(A0)
+        lref = (lambda z: Mc @ (c * z)) if pre == "lineinsum" else (lambda z: Mc.T @ (c * z))
+    elif pre == "mle_static":
+        mle = ift.MultiLinearEinsum(ift.MultiDomain.make({"e0": d}), "ij,j->i", key_order=("st", "e0"),
+                                    static_mf=ift.MultiField.from_dict({"st": ift.makeField(dd, Mc)}))
+        A0 = mle(A0.ducktape_left("e0"))
+        lref = lambda z: Mc @ (c * z)
+    elif pre == "mle_static3":
+        # static complex matrix and two varying operands
+        mle = ift.MultiLinearEinsum(ift.MultiDomain.make({"e0": d, "e1": d}), "ij,i,j->i", key_order=("st", "e0", "e1"),
+                                    static_mf=ift.MultiField.from_dict({"st": ift.makeField(dd, Mc)}))
+        A0 = mle(A0.ducktape_left("e0") + B.ducktape_left("e1")) if case["mode"] == "operator" else None
+        lref = lambda z: np.einsum("ij,i,j->i", Mc, c * z, g(z))
+    elif pre == "mle2":
+        mle = ift.MultiLinearEinsum(ift.MultiDomain.make({"e0": d, "e1": d}), "i,i->i", key_order=("e0", "e1"))
+        A0 = mle(A0.ducktape_left("e0") + B.ducktape_left("e1")) if case["mode"] == "operator" else None
+        lref = lambda z: (c * z) * g(z)
+    elif pre == "outer":
+        # outer product with a complex diagonal in front, contracted again with a complex field
+        a1 = ift.makeOp(ift.makeField(d, Mc[0]))(A0)
+        if case["mode"] == "operator":
+            o = ift.MultiLinearEinsum(ift.MultiDomain.make({"e0": d, "e1": d}), "i,j->ij", key_order=("e0", "e1"))(
+                a1.ducktape_left("e0") + B.ducktape_left("e1"))
+        else:
+            o = a1.outer(B)
+        A0 = ift.ContractionOperator(o.target if case["mode"] == "operator" else o.val.domain, 1)(ift.makeOp(ift.makeField(dd, Mc))(o))
+        lref = lambda z: np.sum(Mc * np.outer(Mc[0] * (c * z), g(z)), axis=1)
+    elif pre == "sandwich":
+        A0 = ift.MatrixProductOperator(d, Mc).adjoint(ift.makeOp(ift.makeField(d, Mc[0]))(A0))
+        lref = lambda z: Mc.conj().T @ (Mc[0] * (c * z))
+    elif pre == "vdotproj":
+        v = ift.VdotOperator(ift.makeField(d, Mc[0]))
+        A0 = v.adjoint(v(A0))
+        lref = lambda z: Mc[0] * np.vdot(Mc[0], c * z)
+    elif pre == "outerop":
+        # OuterProduct with a complex field, contracted with a complex weight
+        A0 = ift.ContractionOperator(dd, 0)(ift.makeOp(ift.makeField(dd, Mc))(ift.OuterProduct(d, ift.makeField(d, Mc[0]))(A0)))
+        lref = lambda z: np.sum(Mc * np.multiply.outer(Mc[0], c * z), axis=0)
+    elif pre == "jaxlin":
+        import jax
+        jax.config.update("jax_enable_x64", True)
+        import jax.numpy as jnp
+        A0 = ift.JaxLinearOperator(d, d, lambda w: jnp.asarray(Mc) @ w, domain_dtype=np.complex128)(A0)
+        lref = lambda z: Mc @ (c * z)
+    if A0 is None:     # two varying operands: operator mode only
+        return None
+    A = apply_holo(A0, case["f"])
+    Aref = lambda z: f(lref(z))
     if cut == "real":
         r = A.real
-        ref0 = lambda z: np.real(f(c * z))
+        ref0 = lambda z: np.real(Aref(z))
     elif cut == "imag":
         r = A.imag
-        ref0 = lambda z: np.imag(f(c * z))
+        ref0 = lambda z: np.imag(Aref(z))
     elif cut == "conj":
         r = A.conjugate()
-        ref0 = lambda z: np.conj(f(c * z))
+        ref0 = lambda z: np.conj(Aref(z))
     elif cut == "vdot":
         r = A.vdot(B)
-        ref0 = lambda z: np.array([np.vdot(f(c * z), g(z))])
+        ref0 = lambda z: np.array([np.vdot(Aref(z), g(z))])
     elif cut == "vdot_field":
         fld = np.array([complex(0.5 * (k + 1), -0.25 * k) for k in range(n)])
         r = A.vdot(ift.makeField(d, fld)) if case["mode"] == "linearization" else A.vdot(ift.makeOp(ift.makeField(d, fld)) @ ift.ScalingOperator(d, 0.) .ptw("exp"))
-        ref0 = lambda z: np.array([np.vdot(f(c * z), fld)])
+        ref0 = lambda z: np.array([np.vdot(Aref(z), fld)])
     elif cut == "abs2":
         r = (A.conjugate() * A).real
-        ref0 = lambda z: np.real(np.conj(f(c * z)) * f(c * z))
+        ref0 = lambda z: np.real(np.conj(Aref(z)) * Aref(z))
     else:
         r = A.conjugate() * B
-        ref0 = lambda z: np.conj(f(c * z)) * g(z)
+        ref0 = lambda z: np.conj(Aref(z)) * g(z)
     if case["post"] != "id":
         r = r.ptw(case["post"])
-    ref = lambda z: np.atleast_1d(post(ref0(z))).astype(complex)
+    energy = case.get("energy", "none") if cut in ("real", "imag", "abs2") else "none"
+    ref1 = lambda z: np.atleast_1d(post(ref0(z)))
+    if energy == "sum":
+        r = r.sum()
+        ref = lambda z: np.atleast_1d(np.sum(ref1(z))).astype(complex)
+    elif energy == "gauss":
+        data = np.array(case["data"])
+        tg = r.target if case["mode"] == "operator" else r.val.domain
+        en = ift.GaussianEnergy(data=ift.makeField(tg, data.reshape(tg.shape)))
+        r_pre = r
+        r = en(r) if case["mode"] == "operator" else None
+        ref = lambda z: np.atleast_1d(0.5 * np.sum((np.real(ref1(z)) - data) ** 2)).astype(complex)
+    else:
+        ref = lambda z: ref1(z).astype(complex)
     if case["mode"] == "operator":
         x = ift.makeField(d, z0)
-        lin = r(ift.Linearization.make_var(x))
+        lin = r(ift.Linearization.make_var(x, want_metric=(energy == "gauss")))
         pval = _arr(r(x)).ravel()
     else:
-        lin = r
+        lin = r if energy != "gauss" else en(r_pre)
         pval = None
     sig = {"site": "aux:creal", "cut": cut, "mode": case["mode"]}
     val = _arr(lin.val).ravel().astype(complex)
@@ -139,7 +223,7 @@ def _creal(case, ift):
     m = J.shape[0]
     real_out = cut in ("real", "imag", "abs2")
     ys = ([e for e in np.eye(m)] if real_out else
-          [e for e in np.eye(m, dtype=complex)] + [1j * e for e in np.eye(m, dtype=complex)])
+          [e for e in np.eye(m, dtype=complex)] + [1j * e for e in np.eye(m, dtype=complex)] + [e for e in np.eye(m)])
     for y in ys:
         yy = ift.makeField(tgt, y.reshape(tgt.shape) if len(tgt.shape) else y[0])
         ay = _arr(lin.jac.adjoint_times(yy)).ravel().astype(complex)
@@ -147,6 +231,19 @@ def _creal(case, ift):
         rhs = np.array([np.real(np.vdot(ay, h)) for h in dirs])
         if not _close(lhs, rhs, 1e-11):
             return (f"creal[{cut}/{case['mode']}]: adjoint Jacobian is not the adjoint w.r.t. Re<.,.>", dict(sig, kind="adjoint"))
+    if energy != "none":
+        # gradient of the real energy: Re<grad, h> = dE(h) for every real direction h (finite differences of the NumPy twin)
+        gr = _arr(lin.gradient).ravel().astype(complex)
+        gh = np.array([np.real(np.vdot(gr, h)) for h in dirs])
+        if not _close(gh, np.real(FD[0]), 5e-6):
+            return (f"creal[{cut}/{case['mode']}]: gradient of the real energy differs from finite differences", dict(sig, kind="gradient"))
+    if energy == "gauss" and lin.metric is not None:
+        # metric = J_r^T J_r in real coordinates, J_r the real-linear Jacobian of the residual (finite differences of the twin)
+        Jr = np.real(_fd_real(lambda z: ref1(z).astype(complex), z0, dirs))
+        want_m = Jr.T @ Jr
+        got = np.array([[np.real(np.vdot(hk, _arr(lin.metric(ift.makeField(d, hj))).ravel())) for hj in dirs] for hk in dirs])
+        if not _close(got, want_m, 2e-5):
+            return (f"creal[{cut}/{case['mode']}]: carried metric of the Gaussian energy differs from J^T J", dict(sig, kind="metric"))
     return None
 
 
